@@ -5,117 +5,131 @@
 mod __verif_c21 {
     use super::*;
 
-    const N: usize = 3;
-
     fn feed(acc: &mut AccumulatorState, x: Option<i64>, slow: bool) {
         match (x, slow) {
             // typed fast path: TypedArrayAccessor::update_accumulator skips NULL rows, feeds update_i64 otherwise
             (Some(v), false) => acc.update_i64(v),
             (None, false) => {}
             // ScalarValue slow path: NULLs are passed in and must be ignored by the accumulator itself
-            (Some(v), true) => acc.update(&ScalarValue::Int64(v)),
-            (None, true) => acc.update(&ScalarValue::Null),
+            (Some(v), true) => {
+                let sv = ScalarValue::Int64(v);
+                acc.update(&sv);
+                std::mem::forget(sv);
+            }
+            (None, true) => {
+                let sv = ScalarValue::Null;
+                acc.update(&sv);
+                std::mem::forget(sv);
+            }
         }
     }
 
+    /// three inputs, each NULL or a BIGINT; a morsel boundary after `split` inputs; which update path is used
     struct Inputs {
-        x: [Option<i64>; N],
+        x: [Option<i64>; 3],
         split: usize,
         slow: bool,
     }
 
     fn any_inputs() -> Inputs {
-        let x: [Option<i64>; N] = kani::any();
-        let mut i = 0;
-        while i < N {
-            if let Some(v) = x[i] {
-                // SUM overflow is engine-defined and excluded by the property
-                kani::assume(v > -(1i64 << 40) && v < (1i64 << 40));
-            }
-            i += 1;
-        }
+        let x: [Option<i64>; 3] = [kani::any(), kani::any(), kani::any()];
+        // SUM overflow is engine-defined and excluded by the property
+        kani::assume(x[0].map_or(true, |v| v > -(1i64 << 40) && v < (1i64 << 40)));
+        kani::assume(x[1].map_or(true, |v| v > -(1i64 << 40) && v < (1i64 << 40)));
+        kani::assume(x[2].map_or(true, |v| v > -(1i64 << 40) && v < (1i64 << 40)));
         let split: usize = kani::any();
-        kani::assume(split <= N);
+        kani::assume(split <= 3);
         Inputs { x, split, slow: kani::any() }
     }
 
-    /// two partial accumulators (a morsel boundary at `split`), merged, finalized
+    /// two partial accumulators (a morsel boundary at `split`), merged, finalized. Straight-line on purpose:
+    /// with no loop in the harness the unwinding bound only has to cover the real code, which keeps the
+    /// recursive drop glue of ScalarValue/DataType (explored by CBMC under every overwritten Option) shallow.
     fn run(func: AggregateFunction, inp: &Inputs) -> ScalarValue {
         let mut left = AccumulatorState::new(&func, &DataType::Int64);
         let mut right = AccumulatorState::new(&func, &DataType::Int64);
-        let mut i = 0;
-        while i < N {
-            if i < inp.split {
-                feed(&mut left, inp.x[i], inp.slow);
-            } else {
-                feed(&mut right, inp.x[i], inp.slow);
-            }
-            i += 1;
-        }
+        if 0 < inp.split { feed(&mut left, inp.x[0], inp.slow) } else { feed(&mut right, inp.x[0], inp.slow) }
+        if 1 < inp.split { feed(&mut left, inp.x[1], inp.slow) } else { feed(&mut right, inp.x[1], inp.slow) }
+        if 2 < inp.split { feed(&mut left, inp.x[2], inp.slow) } else { feed(&mut right, inp.x[2], inp.slow) }
         left.merge(&right);
-        left.finalize(&func)
+        let out = left.finalize(&func);
+        std::mem::forget(left);
+        std::mem::forget(right);
+        out
     }
 
     fn stats(inp: &Inputs) -> (i64, i64, Option<i64>, Option<i64>) {
         let (mut cnt, mut sum) = (0i64, 0i64);
         let (mut mn, mut mx): (Option<i64>, Option<i64>) = (None, None);
-        let mut i = 0;
-        while i < N {
-            if let Some(v) = inp.x[i] {
+        let mut add = |x: Option<i64>| {
+            if let Some(v) = x {
                 cnt += 1;
                 sum += v;
                 mn = Some(match mn { Some(m) if m <= v => m, _ => v });
                 mx = Some(match mx { Some(m) if m >= v => m, _ => v });
             }
-            i += 1;
-        }
+        };
+        add(inp.x[0]);
+        add(inp.x[1]);
+        add(inp.x[2]);
         (cnt, sum, mn, mx)
     }
 
     // @harness tiers=quick,thorough
     // @encodes physical::morsel_agg::AccumulatorState::new, physical::morsel_agg::AccumulatorState::update, physical::morsel_agg::AccumulatorState::update_i64, physical::morsel_agg::AccumulatorState::merge, physical::morsel_agg::AccumulatorState::finalize, physical::morsel_agg::scalar_to_i64
-    // @bounds COUNT and SUM over 3 BIGINT inputs each NULL or |x| < 2^40, any morsel boundary (split 0..=3), typed fast path or ScalarValue slow path
-    // @oracle COUNT = number of non-NULL inputs (0 for none); SUM = NULL iff no non-NULL input, else the exact integer sum
+    // @bounds COUNT over 3 BIGINT inputs each NULL or |x| < 2^40, any morsel boundary (split 0..=3), typed fast path or ScalarValue slow path
+    // @oracle COUNT = number of non-NULL inputs (0 for none, never NULL)
     #[kani::proof]
-    #[kani::unwind(5)]
-    fn count_and_sum_ignore_nulls() {
+    #[kani::unwind(2)]
+    fn count_ignores_nulls() {
         let inp = any_inputs();
-        let (cnt, sum, _, _) = stats(&inp);
+        let (cnt, _, _, _) = stats(&inp);
         let c = run(AggregateFunction::Count, &inp);
-        let s = run(AggregateFunction::Sum, &inp);
         kani::cover!(cnt == 2 && inp.split == 1);
         kani::cover!(cnt == 0);
         assert!(matches!(c, ScalarValue::Int64(n) if n == cnt), "C21.count_counts_non_null");
+        std::mem::forget(c);
+    }
+
+    // @harness tiers=quick,thorough
+    // @encodes physical::morsel_agg::AccumulatorState::new, physical::morsel_agg::AccumulatorState::update, physical::morsel_agg::AccumulatorState::update_i64, physical::morsel_agg::AccumulatorState::merge, physical::morsel_agg::AccumulatorState::finalize, physical::morsel_agg::scalar_to_i64
+    // @bounds SUM over 3 BIGINT inputs each NULL or |x| < 2^40, any morsel boundary, both update paths
+    // @oracle SUM = NULL iff no non-NULL input, else the exact integer sum of the non-NULL inputs
+    #[kani::proof]
+    #[kani::unwind(2)]
+    fn sum_ignores_nulls() {
+        let inp = any_inputs();
+        let (cnt, sum, _, _) = stats(&inp);
+        let s = run(AggregateFunction::Sum, &inp);
+        kani::cover!(cnt == 2 && inp.split == 2);
+        kani::cover!(cnt == 0);
         if cnt == 0 {
             assert!(matches!(s, ScalarValue::Null), "C21.sum_of_no_non_null_is_null");
         } else {
             assert!(matches!(s, ScalarValue::Int64(v) if v == sum), "C21.sum_is_exact_over_non_null");
         }
+        std::mem::forget(s);
     }
 
     // @harness tiers=quick,thorough
     // @encodes physical::morsel_agg::AccumulatorState::update, physical::morsel_agg::AccumulatorState::update_i64, physical::morsel_agg::AccumulatorState::merge, physical::morsel_agg::AccumulatorState::finalize, physical::morsel_agg::compare_scalar_values
-    // @bounds MIN and MAX over 3 BIGINT inputs (NULL or |x| < 2^40), any morsel boundary, both update paths
+    // @bounds MIN and MAX (symbolic choice) over 3 BIGINT inputs (NULL or |x| < 2^40), any morsel boundary, both update paths
     // @oracle NULL iff no non-NULL input, else the integer minimum / maximum of the non-NULL inputs
     #[kani::proof]
-    #[kani::unwind(5)]
+    #[kani::unwind(2)]
     fn min_max_ignore_nulls() {
         let inp = any_inputs();
         let (cnt, _, mn, mx) = stats(&inp);
-        let lo = run(AggregateFunction::Min, &inp);
-        let hi = run(AggregateFunction::Max, &inp);
-        kani::cover!(cnt == 3 && mn != mx);
+        let is_min: bool = kani::any();
+        let got = if is_min { run(AggregateFunction::Min, &inp) } else { run(AggregateFunction::Max, &inp) };
+        let want = if is_min { mn } else { mx };
+        kani::cover!(cnt == 3 && mn != mx && is_min);
         kani::cover!(cnt == 0);
-        match mn {
-            None => assert!(matches!(lo, ScalarValue::Null), "C21.min_of_no_non_null_is_null"),
-            Some(m) => assert!(matches!(lo, ScalarValue::Int64(v) if v == m), "C21.min_is_minimum_of_non_null"),
+        match want {
+            None => assert!(matches!(got, ScalarValue::Null), "C21.min_max_of_no_non_null_is_null"),
+            Some(m) => assert!(matches!(got, ScalarValue::Int64(v) if v == m), "C21.min_max_is_extremum_of_non_null"),
         }
-        match mx {
-            None => assert!(matches!(hi, ScalarValue::Null), "C21.max_of_no_non_null_is_null"),
-            Some(m) => assert!(matches!(hi, ScalarValue::Int64(v) if v == m), "C21.max_is_maximum_of_non_null"),
-        }
-        std::mem::forget(lo);
-        std::mem::forget(hi);
+        std::mem::forget(got);
     }
 
     // @harness tiers=quick,thorough
@@ -123,7 +137,7 @@ mod __verif_c21 {
     // @bounds AVG over 3 BIGINT inputs (NULL or |x| < 2^40 so every partial sum is exact in f64), any morsel boundary, both update paths
     // @oracle NULL iff no non-NULL input, else (exact sum as f64) / (count as f64), bit for bit
     #[kani::proof]
-    #[kani::unwind(5)]
+    #[kani::unwind(2)]
     fn avg_ignores_nulls() {
         let inp = any_inputs();
         let (cnt, sum, _, _) = stats(&inp);
@@ -138,6 +152,7 @@ mod __verif_c21 {
                 "C21.avg_is_sum_over_count_of_non_null"
             );
         }
+        std::mem::forget(a);
     }
 
     // @harness tiers=quick,thorough
